@@ -47,7 +47,7 @@ def configs(tier):
         modes = [(True, w) for w in (LONG_ONLY_W[0], LONG_ONLY_W[1], LONG_ONLY_W[3], LONG_ONLY_W[5])] + [(False, w) for w in SIGNED_W]
         times = ['auto']
         lengths = [7]
-        params = {True: ['0.05'], False: ['1.5']}
+        params = {True: ['0.05', '0'], False: ['1.5']}   # an explicit zero buffer is a buffer, not 'use the default'
         fees = [['zero'], ['pct', '0.001', '0.0005']]
         cashes = ['10007.31', '270.05']   # the small one makes targets toggle between 0 and 1 share
     else:
